@@ -1,8 +1,157 @@
 import PybtexModel.Drv.Json
+import PybtexModel.Model.BstParse
 open Lean
 namespace Pybtex.Drv.C15
+open Pybtex.Bst Pybtex.Scanner
+
+/-! canonical JSON of the abstract syntax and of parse outcomes -/
+
+mutual
+  def tokJ : Tok → Json
+    | .int v => arr [Json.str "Integer", int v]
+    | .str s => arr [Json.str "String", strToJson s]
+    | .quoted n => arr [Json.str "QuotedVar", strToJson n]
+    | .name n => arr [Json.str "Identifier", strToJson n]
+    | .fn body => arr [Json.str "F", arr (toksJ body)]
+  def toksJ : List Tok → List Json
+    | [] => []
+    | t :: ts => tokJ t :: toksJ ts
+end
+
+def cmdJ (c : Bst.Command) : Json :=
+  obj [("c", strToJson c.name), ("g", arr (c.groups.map fun g => arr (toksJ g)))]
+
+def progJ (p : Program) : Json := arr (p.map cmdJ)
+
+def resJ : Except Err Program → Json
+  | .ok p => obj [("ok", progJ p)]
+  | .error .eof => obj [("err", Json.str "EOFError")]
+  | .error (.prematureEOF l) =>
+    obj [("err", Json.str "PrematureEOF"), ("line", nat l), ("msg", Json.str "premature end of file")]
+  | .error (.tokenRequired d l) =>
+    obj [("err", Json.str "TokenRequired"), ("line", nat l), ("msg", strToJson (d ++ " expected".toList))]
+  | .error .outOfFuel => obj [("err", Json.str "MODEL:outOfFuel")]
+
+/-! reading the abstract syntax, lexemes and lay-outs -/
+
+/-- JSON ↦ token; `depth` bounds the nesting the decoder accepts (decoding only, not the model) -/
+def tokOfJ : Nat → Json → Except String Tok
+  | 0, _ => throw "token nesting too deep for the JSON decoder"
+  | depth + 1, j => do
+    let a ← j.getArr?
+    let tag ← (a[0]!).getStr?
+    match tag with
+    | "Integer" => pure (.int (← (a[1]!).getInt?))
+    | "String" => pure (.str (← jsonToStr a[1]!))
+    | "QuotedVar" => pure (.quoted (← jsonToStr a[1]!))
+    | "Identifier" => pure (.name (← jsonToStr a[1]!))
+    | "F" => do
+      let body ← (← (a[1]!).getArr?).toList.mapM (tokOfJ depth)
+      pure (.fn body)
+    | _ => throw s!"unknown token tag {tag}"
+
+def cmdOfJ (j : Json) : Except String Bst.Command := do
+  let name ← getStr j "c"
+  let gs ← (← getArr j "g").mapM fun g => do (← g.getArr?).toList.mapM (tokOfJ 10000)
+  pure ⟨name, gs⟩
+
+def lexOfJ (j : Json) : Except String Lex := do
+  let a ← j.getArr?
+  let tag ← (a[0]!).getStr?
+  match tag with
+  | "w" => pure (.word (← jsonToStr a[1]!))
+  | "i" => pure (.int (← (a[1]!).getInt?))
+  | "s" => pure (.str (← jsonToStr a[1]!))
+  | "{" => pure .lb
+  | "}" => pure .rb
+  | _ => throw s!"unknown lexeme tag {tag}"
+
+def oneChar (s : Str) : Except String Char :=
+  match s with
+  | [c] => pure c
+  | _ => throw "single character expected"
+
+def commentOfStr (s : Str) : Except String CommentText :=
+  if h : s.all (fun c => !isLineSep c) = true then pure ⟨s, h⟩ else throw "line break in comment text"
+
+def itemOfJ (j : Json) : Except String GapItem := do
+  let a ← j.getArr?
+  let tag ← (a[0]!).getStr?
+  match tag with
+  | "ws" =>
+    let c ← oneChar (← jsonToStr a[1]!)
+    if h : isWs c = true then pure (.ws ⟨c, h⟩) else throw "not a white-space character"
+  | "cm" =>
+    let t ← commentOfStr (← jsonToStr a[1]!)
+    let c ← oneChar (← jsonToStr a[2]!)
+    if h : isLineSep c = true then pure (.comment t ⟨c, h⟩) else throw "not a line-break character"
+  | _ => throw s!"unknown gap item {tag}"
+
+def layoutOfJ (j : Json) : Except String Layout := do
+  let gaps ← (← getArr j "gaps").mapM fun g => do (← g.getArr?).toList.mapM itemOfJ
+  let tr ← match j.getObjVal? "trailer" with
+    | .ok (.null) => pure none
+    | .ok t => do pure (some (← commentOfStr (← jsonToStr t)))
+    | .error _ => pure none
+  pure ⟨gaps, tr⟩
+
+/-- `isLineSep`-characters other than `\n` and the `\r` of a `\r\n`: text without them is split
+into the same lines by `splitlines` and by stream iteration -/
+def noExoticSep : Str → Bool
+  | [] => true
+  | '\r' :: '\n' :: r => noExoticSep r
+  | c :: r => (c = '\n' || !isLineSep c) && noExoticSep r
+
+def outcomes (text : Str) : List (String × Json) :=
+  [("string", resJ (parseString text)), ("stream", resJ (parseStream text)),
+   ("file", resJ (parseFile text))]
+
+/-- op `bstparse`: source text ↦ outcome of each entry point; per-line `strip_comment` -/
+def bstparse (j : Json) : Except String Json := do
+  let src ← getStr j "src"
+  pure (obj [("out", obj (outcomes src)),
+             ("spec", obj [("lines", strs (splitLines src)),
+                           ("stripped", strs ((splitLines src).map stripComment)),
+                           ("plain", Json.bool (noExoticSep src)),
+                           ("notrail", Json.bool ((splitLines src).all fun l => rstrip l == l))])])
+
+/-- op `bststrip`: one line ↦ `strip_comment(line)` -/
+def bststrip (j : Json) : Except String Json := do
+  let l ← getStr j "line"
+  pure (obj [("out", strToJson (stripComment l)), ("spec", strToJson (uncommented l))])
+
+/-- op `bstrt`: program + lay-out ↦ the Lean `print`, what the model parses from it, and the
+reference (the program itself, whether it is well-formed) -/
+def bstrt (j : Json) : Except String Json := do
+  let p ← (← getArr j "prog").mapM cmdOfJ
+  let L ← layoutOfJ (← j.getObjVal? "layout")
+  let text := print p L
+  pure (obj [("out", obj (("text", strToJson text) :: outcomes text)),
+             ("spec", obj [("prog", progJ p), ("wf", Json.bool (decide (WFProg p))),
+                           ("plain", Json.bool (noExoticSep text))])])
+
+def readingJ (ls : List Lex) (gaps : List Gap) (text : Str) : Reading → Json
+  | .prog p => obj [("ok", progJ p)]
+  | .badCommand i =>
+    obj [("err", Json.str "TokenRequired"), ("line", nat (lexLine ls gaps i)), ("msg", Json.str "BST command expected")]
+  | .braceExpected i =>
+    obj [("err", Json.str "TokenRequired"), ("line", nat (lexLine ls gaps i)), ("msg", Json.str "'{' expected")]
+  | .prematureEnd =>
+    obj [("err", Json.str "PrematureEOF"), ("line", nat (eofLine text)), ("msg", Json.str "premature end of file")]
+
+/-- op `bstlex`: arbitrary lexeme sequence + lay-out ↦ the Lean rendering, what the model parses
+from it, and the reference reading of the lexeme sequence with the line of the offending lexeme -/
+def bstlex (j : Json) : Except String Json := do
+  let ls ← (← getArr j "lexs").mapM lexOfJ
+  let L ← layoutOfJ (← j.getObjVal? "layout")
+  let text := render none ls L.gaps ++ trailerText L.trailer
+  pure (obj [("out", obj (("text", strToJson text) :: outcomes text)),
+             ("spec", obj [("reading", readingJ ls L.gaps text (read ls)),
+                           ("wf", Json.bool (ls.all wfLex)),
+                           ("plain", Json.bool (noExoticSep text))])])
 
 /-- driver ops of this property: (op name, handler) -/
-def handlers : List (String × (Json → Except String Json)) := []
+def handlers : List (String × (Json → Except String Json)) :=
+  [("bstparse", bstparse), ("bststrip", bststrip), ("bstrt", bstrt), ("bstlex", bstlex)]
 
 end Pybtex.Drv.C15
